@@ -261,7 +261,8 @@ def run(chk, replay=None):
                     "AuthOnly-nego": "traffic from a socket that does not know the credentials had an effect during an honest negotiation "
                                      "(it received an answer / was selected)",
                     "Data": "an application datagram was not delivered unchanged",
-                    "Priority": "an advertised candidate does not carry the RFC 5245 priority"}.get(prop, prop) + ": " + v["what"]
+                    "Priority": "an advertised candidate, or the PRIORITY attribute of a connectivity check (the priority of the peer-reflexive "
+                                "candidate it would create), is not the RFC 5245 4.1.2.1 / 7.1.2.1 value"}.get(prop, prop) + ": " + v["what"]
         if key not in cands or rank < cands[key][0]:
             cands[key] = (rank, sig, what, mini, prop)
     # at most 4 scripted + 2 negotiation candidates, the shortest histories first
